@@ -319,7 +319,7 @@ class PipeCase:
         return cmd
 
     def run_cli(self, model: dict, dest: str = None, timeout=30, hashseed=None, absolute=False, cwd=None,
-                reverse_includes=False, verbose=0) -> Outcome:
+                reverse_includes=False, verbose=0, config_json=False) -> Outcome:
         """the real command line in a fresh interpreter.  hashseed / absolute paths + other working directory /
         include directories in reverse order: the run-to-run variations of C15"""
         own = dest is None
@@ -340,6 +340,12 @@ class PipeCase:
                 cmd[3] = ab(cmd[3])
             if verbose:
                 cmd = cmd[:4] + ['-v'] * verbose + cmd[4:]
+            if config_json:
+                # the same definition as a JSON file (tab indented, as json.dump(indent='\t') writes it)
+                import json as _json
+                with builtins.open(os.path.join(dest, 'isa.json'), 'w') as f:
+                    _json.dump(self.concrete_config(model), f, indent='\t')
+                cmd[cmd.index('-c') + 1] = cmd[cmd.index('-c') + 1].replace('isa.yaml', 'isa.json')
             env = dict(os.environ)
             env['PYTHONPATH'] = REPO_SRC
             env['PYTHONDONTWRITEBYTECODE'] = '1'
